@@ -270,10 +270,11 @@ def _unit(ctx, lat, lon):
 def _hav_of(arc):
     """sin^2(arc / 2) as the rational function the code took the arcsine's square root of"""
     k, d = _inv_def(arc)
-    if not (k == 2 and d[0] == "arcsin"):
-        raise AssertionError("great_circle_distance is not 2 * arcsin(.)")
-    q = d[1]
-    return square(q)
+    if k == 2 and d[0] == "arcsin":
+        return square(d[1])                       # arc = 2 arcsin(q)
+    if k == 1 and d[0] == "arccos":
+        return (1 - Q.of(d[1])) / 2               # arc = arccos(q): sin^2(arc/2) = (1 - cos arc) / 2
+    raise NotImplementedError("great_circle_distance built from %r x %r" % (k, d[0]))
 
 
 @harness("C07.distances", cases=lambda tier: ["chord", "symmetry", "shift"],
@@ -316,6 +317,74 @@ def k_dist(ctx):
                 ctx.check("longitude-shift-invariant", ctx.close(arc_s, arc, abs_=1e-7) and ctx.close(t_s, t, rel=1e-9, abs_=1e-3))
 
 
+# ---- K2: the fixed point of the cart2geodetic iteration ------------------------------------------------
+def _loop_body():
+    """the body of the `while` loop of cart2geodetic, taken from the current source"""
+    src = textwrap.dedent(inspect.getsource(GD.cart2geodetic))
+    tree = ast.parse(src)
+    loops = [n for n in ast.walk(tree) if isinstance(n, ast.While)]
+    if len(loops) != 1:
+        raise RuntimeError("cart2geodetic: expected exactly one while loop")
+    mod = ast.Module(body=loops[0].body, type_ignores=[])
+    return compile(ast.fix_missing_locations(mod), "<cart2geodetic loop body>", "exec")
+
+
+class _Box:
+    """lets `B = B0.copy()` of the loop body work on a scalar angle"""
+
+    def __init__(self, v):
+        self.v = v
+
+    def copy(self):
+        return _Box(self.v)
+
+    def sin(self):
+        return self.v.sin()
+
+    def cos(self):
+        return self.v.cos()
+
+
+@harness("C07.fixed-point", cases=lambda tier: ["eccentric"],
+         expect=lambda c: ["true-latitude-is-a-fixed-point", "height-at-the-fixed-point-is-the-true-height"])
+def k_fixed(ctx):
+    """one pass of the loop body of cart2geodetic (extracted from the current source) started at the
+    true geodetic latitude returns that latitude and the true height: the limit of the iteration is
+    the exact answer, for every a > 0, 0 < e < 1, height with N + h > 0 and |lat| < 90."""
+    from symx import ratfun
+    ell = _ell(ctx, "eccentric")
+    lat, lon = _angle(ctx, "lat"), _angle(ctx, "lon")
+    h = _real(ctx, "h")
+    _north(ctx, lat)
+    code = _loop_body()
+    if not ctx.sym:
+        if h < -0.5 * ell[0]:
+            raise core.Infeasible()
+        x, y, z = GD.geodetic2cart(h, lat, lon, ell)
+        env = {"np": np, "x": x, "y": y, "z": z, "ellipsoid": ell, "e2": ell[1] ** 2, "B0": np.float64(math.radians(lat))}
+        exec(code, env)
+        ctx.check("true-latitude-is-a-fixed-point", abs(math.degrees(float(env["B0"])) - lat) < 1e-9)
+        ctx.check("height-at-the-fixed-point-is-the-true-height", abs(float(env["h"]) - h) < 1e-6 * (abs(h) + abs(ell[0])))
+        return
+    a, e = ell
+    with _env(ctx):
+        x, y, z = [_u(v) for v in GD.geodetic2cart(h, lat, lon, ell)]
+        N = a / (1 - e * e * lat.sin() * lat.sin()).sqrt()          # the same root as inside geodetic2cart
+        ctx.assume((N + h > 0))
+        ratfun.SQRT_HINTS[:] = [(N + h) * lat.cos()]                  # = hypot(x, y) >= 0 in this domain
+        try:
+            env = {"np": GD.np, "x": x, "y": y, "z": z, "ellipsoid": ell, "e2": e * e, "B0": _Box(lat.deg2rad())}
+            exec(code, env)
+        finally:
+            ratfun.SQRT_HINTS[:] = []
+    Bn, hn = env["B0"], _u(env["h"])
+    ctx.check("height-at-the-fixed-point-is-the-true-height", poly_eq(hn, h))
+    k, d = _inv_def(Bn)
+    ctx.check("true-latitude-is-a-fixed-point", k == 1 and d[0] == "arctan" and Bn.unit == "rad", detail=repr(d[0]))
+    ctx.check("true-latitude-is-a-fixed-point", poly_eq(d[1] * lat.cos(), lat.sin()),
+              detail="tan(B_new) == tan(lat), both in (-90, 90) degrees")
+
+
 def conformance(tier):
     """no NaN / exception inside the stated domain for the six real ellipsoid models (the symbolic
     runs stay in the real domain by assumption) and the documented accuracy of the round trip"""
@@ -338,15 +407,15 @@ def conformance(tier):
 
 
 PLAN = {
-    "quick": {"harnesses": ["C07.radius", "C07.geodetic-definition", "C07.spherical-roundtrip", "C07.spherical-geodetic", "C07.composed", "C07.distances"],
+    "quick": {"harnesses": ["C07.radius", "C07.geodetic-definition", "C07.spherical-roundtrip", "C07.spherical-geodetic", "C07.composed", "C07.distances", "C07.fixed-point"],
               "opts": {"query_timeout_ms": 30000}},
-    "thorough": {"harnesses": ["C07.radius", "C07.geodetic-definition", "C07.spherical-roundtrip", "C07.spherical-geodetic", "C07.composed", "C07.distances"],
+    "thorough": {"harnesses": ["C07.radius", "C07.geodetic-definition", "C07.spherical-roundtrip", "C07.spherical-geodetic", "C07.composed", "C07.distances", "C07.fixed-point"],
                  "opts": {"query_timeout_ms": 120000}},
 }
 BOUNDS = {"all": "scalar arguments; every latitude with cos(lat) > 0, every longitude, every height in [-10 km, 1000 km], every radius > 0; all six "
                  "ellipsoid models (constants as the decimal literals written in the source); point pairs for the distances"}
 OUTSIDE = ["everything that is a statement about doubles: the 1 cm / 1e-7 degree accuracy, convergence and termination of the cart2geodetic "
-           "iteration (only its fixed point is decided)", "the triangle inequality (needs arc lengths, not their sines)",
+           "iteration (its fixed point is decided: one pass of the real loop body from the true latitude returns it)", "the triangle inequality (needs arc lengths, not their sines)",
            "position + line-of-sight conversions (cartposlos2geocentric / geocentricposlos2cart)", "array broadcasting",
            "asind and the other degree helpers"]
 STUBS = ["exact angle algebra: angles are integer combinations of half-angle atoms with s^2 + c^2 = 1; sin / cos expand to polynomials; "
